@@ -16,13 +16,23 @@ def macroSimple (cc : CharClass) (cap : Nat) (tp : List Char → List Char) (s :
 def macroInter (cc : CharClass) (tp : List Char → List Char) (s : List Char) :=
   C02.parse cc (tp s)
 
+/-- Driver only.  The request carries the SOURCE text of the invocation.  Rust's tokenizer drops its white space
+(Pattern_White_Space: U+0009..U+000D, U+0020, U+0085, U+200E, U+200F, U+2028, U+2029) and the token printer writes a plain
+space or a line break between tokens, so - as far as a parser that ignores white space can tell - the text the macro
+receives is the source with each of these characters turned into `' '`. -/
+def isPatternWs (c : Char) : Bool :=
+  c = '\t' || c = '\n' || c = '\x0B' || c = '\x0C' || c = '\r' || c = ' ' || c = '\u0085' ||
+  c = '\u200e' || c = '\u200f' || c = '\u2028' || c = '\u2029'
+
+def tokenText (s : List Char) : List Char := s.map fun c => if isPatternWs c then ' ' else c
+
 def handle (line : String) : String :=
   let p : P String := do
     let cmd ← tok
     let s ← chars
     match cmd with
-    | "m1" | "bad1" => return C16.answer1 Num.show s
-    | "m2" | "bad2" => return C16.answer2 Num.show s
+    | "m1" | "bad1" => return C16.answer1 Num.show (tokenText s)
+    | "m2" | "bad2" => return C16.answer2 Num.show (tokenText s)
     | _ => fail
   match run p line with
   | some s => s
